@@ -964,6 +964,41 @@ Section Oracles.
     auto.
   Qed.
 
+  (* ---- C12: where the working directory comes from - top-level cwd, else tool_input.cwd, else the
+     process's own; the mode is not among the arguments *)
+  Definition cwd_spec (kv : list (str * json)) : res str :=
+    let top := field $"cwd" kv JNull in
+    if truthy top then path_resolve o_resolve top
+    else
+      inner <- py_get (field $"tool_input" kv (JObj [])) $"cwd" JNull ;;
+      if truthy inner then path_resolve o_resolve inner else o_getcwd.
+
+  Lemma find_cwd_spec kv : find_cwd (JObj kv) = cwd_spec kv.
+  Proof.
+    unfold Hook.find_cwd, cwd_spec, field. cbn [py_get bind].
+    destruct (truthy match assoc $"cwd" kv with Some v => v | None => JNull end) eqn:T; cbn [negb bind].
+    - rewrite T. reflexivity.
+    - destruct (py_get match assoc $"tool_input" kv with Some v => v | None => JObj [] end $"cwd" JNull); reflexivity.
+  Qed.
+
+  (* main() in any mode: that directory, then a continuation that receives it *)
+  Lemma main_try_cwd m kv :
+    main_try (Some m) (JObj kv) =
+      (cwd <- cwd_spec kv ;;
+       match load_stage cwd with
+       | Raise (ConfigError msg) => lift m (config_error_outcome (JObj kv) msg)
+       | Raise e => Raise e
+       | Ok cfg => after_config m (JObj kv) cfg cwd
+       end).
+  Proof.
+    unfold Hook.main_try. cbn [bind]. rewrite find_cwd_spec.
+    destruct (cwd_spec kv) as [cwd|e]; cbn [bind]; [|reflexivity].
+    destruct (load_stage cwd) as [cfg|e]; [reflexivity|]. destruct e; try reflexivity.
+    unfold lift. rewrite <- config_error_branch.
+    destruct (py_get (JObj kv) $"hook_event_name" JNull) as [he|x]; cbn [bind]; [|reflexivity].
+    destruct (py_eq_str he $"PostToolUse"); cbn [bind render]; [reflexivity|]. rewrite ask_envelope. reflexivity.
+  Qed.
+
   (* ---- C12: the forced mode does not influence the verdict *)
   Lemma core_mode_independent inp :
     keyed inp \/ (forall kv, inp <> JObj kv) -> core true inp = core false inp.
